@@ -7,6 +7,8 @@ CONSTANTS
   Dmarcs = {"off", "quar"}
   Only1On = TRUE
   WithRemote = TRUE
+  Kinds = {"pipe", "rpipe"}
+  ModOn = TRUE
   Lazy = TRUE
   Devs = {"NABody", "BodyPerScope", "ReplayRejectLeaks"}
   Gen = FALSE
